@@ -4,6 +4,7 @@ Line-protocol driver for the C03 models (metric block merge + family compaction)
   merge <blk> <blk> ...                      -> ok <canonical blk>
   wr <blk>                                   -> ok <canonical blk read back from the model block writer's output>
   reset                                       -> ok
+  reopen                                      -> ok L0:<files> L1:<files>     (store closed and opened again: identity)
   flush <metric>=<blk> <metric>=<blk> ...     -> ok L0:<files> L1:<files>
   compact <threshold> <maxFileSize> <k:len,k:len,...|-> [failAt|- [open:<i>:<enoent|io>]]  -> <skipped|moved|merged|fail> L0:<files> L1:<files>
                                                  (failAt: the output file with that index cannot be created; open: the open of
@@ -14,6 +15,11 @@ Line-protocol driver for the C03 models (metric block merge + family compaction)
                                                  `-` intact, `h` header unreadable, `b<hk>,<hk>` series buckets unreadable)
   mergew <blk> <blk> ...                      -> hang | ok <canonical blk> | err merge  (slot loop with a uint16 variable:
                                                  a decoded input whose range ends at slot 65535 never leaves the loop)
+
+  dsteps <ratio> <base> <tStart> <len> <nblocks> <step> ...  -> ok <acc>~<pos,pos,..> ...   (one decoder slice over all steps;
+                                                 <step> = <field type code>:<n|a|p>:<fd>;<fd>;...  path n = arm + down-sampling,
+                                                 a = arm only, p = nothing; <fd> = `-` | <a>_<b>@slot=val,...; <acc> = `-` or the
+                                                 target positions p=v; <pos> = read position of each decoder, `-` for nil)
 
   <blk>   = <fields>#<start>_<end>#<series>|<series>...      fields = id:ty,id:ty
   <series>= sid/fid@slot=val,slot=val/fid@...
@@ -28,6 +34,7 @@ import LinVerif.Model.Compact
 import LinVerif.Model.BlockWriter
 import LinVerif.Model.MergeLoop
 import LinVerif.Model.C03Inputs
+import LinVerif.Model.C03FastPath
 import LinVerif.Generated.C03
 
 namespace LinVerif.Driver.C03
@@ -162,8 +169,56 @@ positioned on the block's range and the slot loop runs over it) -/
 def hasData (b : Blk) : Bool :=
   b.series.any (fun p => b.fields.any (fun fm => (lookup p.2 fm.1).isSome))
 
+/-- `<a>_<b>@slot=val,...` or `-` -/
+def parseFD (w : String) : Option (C03Decoder.FD Int) :=
+  if w = "-" then some none else do
+    let (rg, vs) ← parsePair w "@"
+    let (a, b) ← parsePair rg "_"
+    let a ← a.toNat?
+    let b ← b.toNat?
+    let vals ← (splitNE vs ",").mapM parseSlotVal
+    some (some (vals, a, b))
+
+def parsePath (w : String) : Option C03FastPath.Path :=
+  if w = "n" then some .normal else if w = "a" then some .armedBypass else if w = "p" then some .plainBypass else none
+
+def parseStepF (n : Nat) (w : String) : Option (C03FastPath.Step Int) :=
+  match w.splitOn ":" with
+  | [ty, p, fds] => do
+    let c ← ty.toNat?
+    let ty ← FieldType.ofCode? c
+    let path ← parsePath p
+    let fs ← (fds.splitOn ";").mapM parseFD
+    if fs.length ≠ n then none else some { op := aggInt ty, fds := fs, path := path }
+  | _ => none
+
+def showAcc (len : Nat) : Option (List (Nat × Int)) → String
+  | none => "-"
+  | some acc => ",".intercalate ((emit acc 0 len).map (fun (p, v) => s!"{p}={v}"))
+
+def showPos (ss : List (Option (C03Decoder.Dec Int))) : String :=
+  ",".intercalate (ss.map (fun o => match o with | none => "-" | some d => toString d.idx))
+
+/-- all steps over one slice, printing accumulator and decoder positions after every step -/
+def runSteps (cfg : Cfg) (tStart len : Nat) :
+    List (Option (C03Decoder.Dec Int)) → List (C03FastPath.Step Int) → List String
+  | _, [] => []
+  | ss, st :: rest =>
+    let r := C03FastPath.fieldStepF cfg tStart len ss st
+    s!"{showAcc len r.2}~{showPos r.1}" :: runSteps cfg tStart len r.1 rest
+
 def step (st : Family Int) (ws : List String) : Family Int × String :=
   match ws with
+  | "dsteps" :: ra :: ba :: ts :: ln :: nb :: rest =>
+    match ra.toNat?, ba.toNat?, ts.toNat?, ln.toNat?, nb.toNat? with
+    | some ratio, some base, some tStart, some len, some n =>
+      if ratio = 0 ∨ len = 0 ∨ n = 0 ∨ rest.isEmpty then (st, "bad-op") else
+      match rest.mapM (parseStepF n) with
+      | some steps =>
+        let cfg : Cfg := { ratio := ratio, baseSlot := base, mapSlot := id }
+        (st, "ok " ++ " ".intercalate (runSteps cfg tStart len (List.replicate n none) steps))
+      | none => (st, "bad-op")
+    | _, _, _, _, _ => (st, "bad-op")
   | "dmerge" :: spec :: rest =>
     match (spec.splitOn ";").mapM parseDmg, rest.mapM parseBlock with
     | some ds, some (b :: bs) =>
@@ -196,6 +251,8 @@ def step (st : Family Int) (ws : List String) : Family Int × String :=
       | none => (st, "err empty")
     | none => (st, "bad-op")
   | ["reset"] => (Family.empty, "ok")
+  -- the store is closed and reopened: the family (the version the manifest holds) is what it was
+  | ["reopen"] => (st, "ok " ++ showLevels st)
   | "flush" :: rest =>
     match rest.mapM parseEntry with
     | some es => let s := flush st es; (s, "ok " ++ showLevels s)
